@@ -21,7 +21,7 @@ Theorem c04_constants_pinned :
   valid_success_req = [b "claimSignature.validated"; b "claimSignature.insideValidity"]
   /\ trusted_success_req = [b "signingCredential.trusted"]
   /\ tolerated_exact = [b "signingCredential.untrusted"]
-  /\ tolerated_prefixes = [b "cawg.x509."]
+  /\ tolerated_prefixes = [b "cawg."]
   /\ legacy_tolerated = b "signingCredential.untrusted".
 Proof. repeat split. Qed.
 
